@@ -48,9 +48,15 @@ ImCopyConst(f, real) == IF f = 1 THEN 7 ELSE IF real THEN 10 * f + 1 ELSE 900 + 
 ImCopyImp(g, f, real) == IF real THEN g.imps[f] ELSE <<>>
 ImConst(g, f) == ImCopyConst(f, ImRealWins(g, f))
 ImImp(g, f) == ImCopyImp(g, f, ImRealWins(g, f))   \* the imports that are read
-ImHasAgg(g) == g.pool >= 3
-ImDefs(g, f) == (IF f = 1 THEN {"Helper", "M"} ELSE {"Helper", "Val", ImOwn(f)})
+ImHasAgg(g) == g.pool \in {3, 4}
+ImHasFun(g) == g.pool = 5       \* functor application with a constant argument
+(* the name of the private predicate every file defines: g.hname if given  *)
+(* (lower-case, underscore, digit, backtick forms), else "Helper"           *)
+ImHelper(g) == IF "hname" \in DOMAIN g THEN g.hname ELSE "Helper"
+ImFunPreds == {"Big", "Threshold"}  \* imported to be used in a functor call only
+ImDefs(g, f) == (IF f = 1 THEN {ImHelper(g), "M"} ELSE {ImHelper(g), "Val", ImOwn(f)})
                 \cup (IF ImHasAgg(g) THEN {"Agg"} ELSE {})
+                \cup (IF ImHasFun(g) THEN {"Threshold", "Big", "VeryBig"} ELSE {})
 ImSucc(g, f) == {ImImp(g, f)[j].t : j \in 1..Len(ImImp(g, f))}
 
 RECURSIVE ImClose(_, _)
@@ -92,14 +98,16 @@ ImCall1(p) == [k |-> "pcall", p |-> p, args |-> <<[f |-> "col0", e |-> ImLit(1)]
 (*             (Hx | Hy, x == y + 1 | L(x) | ...)                           *)
 ImCopyPreds(g, f, real, Nm(_)) ==
   LET c == ImCopyConst(f, real)
-      H == Nm("Helper")
+      H == Nm(ImHelper(g))
       fun == g.pool \in {2, 4}
       helper == IF ~fun
                 THEN ImPred(H, <<ImRule(ImHead1(ImLit(c)), <<>>)>>)
                 ELSE ImPred(H, <<ImRule(ImHeadV(ImLit(c)), <<>>)>>)
       Hx(v) == IF ~fun THEN ImAtom(H, ImVar(v))
                ELSE ImUnify(ImVar(v), ImCall(H))
-      us == SelectSeq(ImCopyImp(g, f, real), LAMBDA i : i.used)
+      us == SelectSeq(ImCopyImp(g, f, real),
+                      LAMBDA i : i.used /\ i.pred \notin ImFunPreds)
+      fbig == SelectSeq(ImCopyImp(g, f, real), LAMBDA i : i.pred = "Big")
       L(j) == ImAtom(Nm(ImLocal(us[j])), ImVar("x"))
       aggtop == IF ImHasAgg(g)
                 THEN <<ImRule(ImHead1(ImVar("x")),
@@ -108,7 +116,21 @@ ImCopyPreds(g, f, real, Nm(_)) ==
       top == ImPred(Nm(ImTop(f)),
                <<ImRule(ImHead1(ImVar("x")), <<Hx("x")>>)>> \o
                [j \in 1..Len(us) |-> ImRule(ImHead1(ImVar("x")), <<L(j)>>)] \o
-               aggtop)
+               aggtop \o
+               (IF ImHasFun(g)
+                THEN <<ImRule(ImHead1(ImVar("x")), <<ImAtom(Nm("VeryBig"), ImVar("x"))>>)>>
+                ELSE <<>>) \o
+               [j \in 1..Len(fbig) |->
+                  ImRule(ImHead1(ImVar("x")),
+                         <<ImAtom(Nm("Made" \o ToString(fbig[j].t)), ImVar("x"))>>)])
+      \* pool 5:  Threshold() = 0;  Big(x) :- Helper(y), x == y + Threshold();
+      funps == IF ImHasFun(g)
+             THEN <<ImPred(Nm("Threshold"), <<ImRule(ImHeadV(ImLit(0)), <<>>)>>),
+                    ImPred(Nm("Big"),
+                      <<ImRule(ImHead1(ImVar("x")),
+                          <<Hx("y"), ImUnify(ImVar("x"),
+                                ImPlus(ImVar("y"), ImCall(Nm("Threshold"))))>>)>>)>>
+             ELSE <<>>
       own == ImPred(Nm(ImOwn(f)),
                <<ImRule(ImHead1(ImPlus(ImVar("y"), ImLit(1))), <<Hx("y")>>)>>)
       agg == IF g.pool = 3
@@ -123,19 +145,43 @@ ImCopyPreds(g, f, real, Nm(_)) ==
                                     <<Hx("y"), ImUnify(ImVar("x"), ImPlus(ImVar("y"), ImLit(1)))>> >> \o
                                  [j \in 1..Len(us) |-> <<L(j)>>])>>)>>)>>
              ELSE <<>>
-  IN (IF f = 1 THEN <<helper, top>> ELSE <<helper, top, own>>) \o agg
+  IN (IF f = 1 THEN <<helper, top>> ELSE <<helper, top, own>>) \o agg \o funps
+
+(* Functor applications of one copy.  pool 5:  VeryBig := Big(Threshold: 4); *)
+(* and for every import of another file's Big (with that file's Threshold   *)
+(* imported too):  Made<t> := <local Big>(<local Threshold>: 5);            *)
+(* Cv(n): how the constant n is written - the text has the number, the      *)
+(* semantics (LSem: functor application = predicate substitution) the name  *)
+(* of a constant predicate  Const<n>() = n.                                  *)
+ImCopyMakes(g, f, real, Nm(_), Cv(_)) ==
+  LET imps == ImCopyImp(g, f, real)
+      fbig == SelectSeq(imps, LAMBDA i : i.pred = "Big")
+      Thr(t) == LET J == {j \in 1..Len(imps) : imps[j].t = t /\ imps[j].pred = "Threshold"}
+                IN ImLocal(imps[CHOOSE j \in J : TRUE])
+  IN (IF ImHasFun(g)
+      THEN <<[name |-> Nm("VeryBig"), functor |-> Nm("Big"),
+              args |-> <<[k |-> Nm("Threshold"), v |-> Cv(4)]>>]>>
+      ELSE <<>>) \o
+     [j \in 1..Len(fbig) |->
+        [name |-> Nm("Made" \o ToString(fbig[j].t)), functor |-> Nm(ImLocal(fbig[j])),
+         args |-> <<[k |-> Nm(Thr(fbig[j].t)), v |-> Cv(5)]>>]]
+ImConstPred(n) == ImPred("Const" \o ToString(n), <<ImRule(ImHeadV(ImLit(n)), <<>>)>>)
 
 ImFilePreds(g, f, Nm(_)) == ImCopyPreds(g, f, ImRealWins(g, f), Nm)
 
 ImModule(g, f) == ImFilePreds(g, f, LAMBDA n : n)   \* the text of the copy of f that is read
 ImCopyModule(g, f, real) == ImCopyPreds(g, f, real, LAMBDA n : n)
+ImCopyModuleMakes(g, f, real) ==
+  ImCopyMakes(g, f, real, LAMBDA n : n, LAMBDA n : ToString(n))
 (* all physical files: <<file, root, is the real module, imports, predicates>> *)
 ImCopies(g) ==
   LET One(f) == <<[f |-> f, root |-> g.files[f].root, real |-> TRUE,
-                   imps |-> g.imps[f], mod |-> ImCopyModule(g, f, TRUE)]>> \o
+                   imps |-> g.imps[f], mod |-> ImCopyModule(g, f, TRUE),
+                   makes |-> ImCopyModuleMakes(g, f, TRUE)]>> \o
                 (IF g.files[f].decoy = 0 THEN <<>>
                  ELSE <<[f |-> f, root |-> g.files[f].decoy, real |-> FALSE,
-                         imps |-> <<>>, mod |-> ImCopyModule(g, f, FALSE)]>>)
+                         imps |-> <<>>, mod |-> ImCopyModule(g, f, FALSE),
+                         makes |-> ImCopyModuleMakes(g, f, FALSE)]>>)
       RECURSIVE Go(_)
       Go(f) == IF f > ImN(g) THEN <<>> ELSE One(f) \o Go(f + 1)
   IN Go(2)
@@ -144,7 +190,9 @@ ImCopies(g) ==
 (* Flattening: unique names.  A name mentioned in file f means the         *)
 (* imported predicate if f imports something under that name, else f's own *)
 (* predicate.  Main keeps its names (they are what the user queries).       *)
-ImU(f, p) == IF f = 1 THEN p ELSE "F" \o ToString(f) \o "_" \o p
+ImU(f, p) == IF f = 1 THEN p
+             ELSE IF p = "`helper`" THEN "`F" \o ToString(f) \o "_helper`"
+             ELSE "F" \o ToString(f) \o "_" \o p
 
 ImResolveFP(g, f, n) ==           \* <<file, predicate of that file>>
   LET J == {j \in 1..Len(ImImp(g, f)) : ImLocal(ImImp(g, f)[j]) = n}
@@ -160,7 +208,28 @@ ImConcat(g, f, n) ==
         THEN ImFilePreds(g, f, LAMBDA x : ImResolve(g, f, x)) ELSE <<>>)
        \o ImConcat(g, f + 1, n)
 
-ImFlatten(g) == [preds |-> ImConcat(g, 1, ImN(g)), rec |-> <<>>, makes |-> <<>>]
+ImCv(text, n) == IF text THEN ToString(n) ELSE "Const" \o ToString(n)
+RECURSIVE ImConcatMakes(_, _, _, _)
+ImConcatMakes(g, f, n, text) ==
+  IF f > n THEN <<>>
+  ELSE (IF f \in ImReach(g)
+        THEN ImCopyMakes(g, f, ImRealWins(g, f), LAMBDA x : ImResolve(g, f, x),
+                         LAMBDA c : ImCv(text, c))
+        ELSE <<>>)
+       \o ImConcatMakes(g, f + 1, n, text)
+
+(* the meaning (for LSem): constants of functor calls are constant predicates *)
+ImFlatten(g) ==
+  LET mk == ImConcatMakes(g, 1, ImN(g), FALSE)
+      cs == {4, 5} \cap {c \in {4, 5} : \E i \in 1..Len(mk) : mk[i].args[1].v = "Const" \o ToString(c)}
+  IN [preds |-> ImConcat(g, 1, ImN(g)) \o
+                (IF 4 \in cs THEN <<ImConstPred(4)>> ELSE <<>>) \o
+                (IF 5 \in cs THEN <<ImConstPred(5)>> ELSE <<>>),
+      rec |-> <<>>, makes |-> mk]
+(* the hand-flattened program as TEXT: the same, constants written as numbers *)
+ImFlattenText(g) ==
+  [preds |-> ImConcat(g, 1, ImN(g)), rec |-> <<>>,
+   makes |-> ImConcatMakes(g, 1, ImN(g), TRUE)]
 
 (* main's observed predicate: M unions main's own Helper with everything  *)
 (* imported, so any collision of a Helper shows in its rows                *)
@@ -222,6 +291,11 @@ ImShapes(g) ==
   (IF g.nroots = 2 /\ {g.files[f].root : f \in R \ {1}} = {1, 2} THEN {"two_roots"} ELSE {}) \cup
   (IF g.pool \in {2, 4} THEN {"functional_helper"} ELSE {"table_helper"}) \cup
   (IF g.pool = 3 THEN {"agg_multi_rule"} ELSE {}) \cup
+  (IF ImHasFun(g) /\ R # {1} THEN {"functor_const_in_module"} ELSE {}) \cup
+  (IF \E fj \in ImAllImps(g) : ImI(g, fj).pred = "Big" THEN {"functor_const_across_import"} ELSE {}) \cup
+  (IF ImHelper(g) # "Helper" THEN {"lowercase_private"} ELSE {}) \cup
+  (IF \E fj \in ImAllImps(g) : fj[1] # 1 /\ ImLocal(ImI(g, fj)) \in ImDefs(g, fj[1])
+   THEN {"redefinition_in_module"} ELSE {}) \cup
   (IF g.pool = 4 THEN {"agg_disjunction"} ELSE {}) \cup
   (IF \E f \in R : g.files[f].decoy # 0 /\ ImRealWins(g, f) THEN {"shadow_real_first"} ELSE {}) \cup
   (IF \E f \in R : ~ImRealWins(g, f) THEN {"shadow_decoy_first"} ELSE {}) \cup
